@@ -476,3 +476,73 @@ Proof.
   repeat split; exact (spec_reopen_invisible ops rest).
 Qed.
 
+
+(* ================= JsonDB over the text layer (sessions under different locales) ================= *)
+Lemma run_sim2 {S1 S2} (step1 : S1 -> op -> S1 * obs) (step2 : S2 -> op -> S2 * obs) (R : S1 -> S2 -> Prop) :
+  (forall a b o, R a b -> snd (step1 a o) = snd (step2 b o) /\ R (fst (step1 a o)) (fst (step2 b o))) ->
+  forall ops a b, R a b -> run step1 a ops = run step2 b ops.
+Proof.
+  intros Hstep. induction ops as [|o r IH]; intros a b HR; simpl; auto.
+  destruct (Hstep a b o HR) as [H1 H2]. rewrite H1. f_equal. apply IH. exact H2.
+Qed.
+
+Section JsonTextP.
+  Variable F : Type.
+  Variable encdb : tmap -> F.
+  Variable decdb : F -> tmap.
+  Variable B : Type.
+  Variable L : Type.
+  Variable tenc : L -> F -> option B.
+  Variable tdec : L -> B -> option F.
+  Variable trunc : B.
+  Variable locs : nat -> L.
+  Hypothesis Htext : text_ok F encdb B L tenc tdec.
+
+  (* the answers and the next dict of a JsonDB object depend on its dict only *)
+  Lemma json_step_db (a b : jsondb F) o : j_db F a = j_db F b ->
+    snd (json_step F encdb decdb a o) = snd (json_step F encdb decdb b o) /\
+    j_db F (fst (json_step F encdb decdb a o)) = j_db F (fst (json_step F encdb decdb b o)).
+  Proof.
+    intros H. destruct a as [fa da], b as [fb db]. simpl in H. subst db.
+    destruct o as [t k v|t k|t|t| |]; simpl; auto.
+  Qed.
+
+  Lemma jsonl_sim (a : jsondb_l F B) (b : jsondb F) o : j_db F (jl_obj F B a) = j_db F b ->
+    snd (jsonl_step F encdb decdb B L tenc tdec trunc locs a o) = snd (json_step F encdb decdb b o) /\
+    j_db F (jl_obj F B (fst (jsonl_step F encdb decdb B L tenc tdec trunc locs a o))) =
+    j_db F (fst (json_step F encdb decdb b o)).
+  Proof.
+    intros H. destruct o as [t k v|t k|t|t| |];
+      try (exact (json_step_db (jl_obj F B a) b _ H)).
+    simpl. destruct (Htext (j_db F (jl_obj F B a)) (locs (jl_n F B a)) (locs (S (jl_n F B a)))) as [x [H1 H2]].
+    rewrite H1, H2. simpl. rewrite H. auto.
+  Qed.
+
+  Lemma json_text_refines_json ops :
+    run_json_text F encdb decdb B L tenc tdec trunc locs ops = run_json F encdb decdb ops.
+  Proof.
+    unfold run_json_text, run_json.
+    apply (run_sim2 _ _ (fun a b => j_db F (jl_obj F B a) = j_db F b)).
+    - intros a b o H. apply jsonl_sim. exact H.
+    - reflexivity.
+  Qed.
+End JsonTextP.
+
+Lemma json_text_refines : forall (F B L : Type) encdb decdb (tenc : L -> F -> option B) tdec trunc,
+  dbcodec_ok F encdb decdb -> text_ok F encdb B L tenc tdec ->
+  forall (locs : nat -> L) ops,
+    run_json_text F encdb decdb B L tenc tdec trunc locs ops = run_spec ops /\
+    ~ In OExc (run_json_text F encdb decdb B L tenc tdec trunc locs ops).
+Proof.
+  intros F B L encdb decdb tenc tdec trunc H1 H2 locs ops.
+  rewrite (json_text_refines_json F encdb decdb B L tenc tdec trunc locs H2 ops).
+  rewrite (json_refines F encdb decdb H1). split; auto.
+  assert (H : forall ops m, ~ In OExc (run spec_step m ops)).
+  { clear. induction ops as [|o r IH]; intros m; simpl; [tauto|].
+    intros [H|H]; [destruct o; discriminate | exact (IH _ H)]. }
+  apply H.
+Qed.
+
+(* the identity text layer satisfies the hypothesis *)
+Lemma id_text_ok : text_ok tmap idm tmap unit (fun _ f => Some f) (fun _ b => Some b).
+Proof. intros m l l'. exists (idm m). split; reflexivity. Qed.
